@@ -148,6 +148,19 @@ void Desc::normalise() {
     keep.push_back(k);
   }
   cmds = keep;
+  // A command that reads through a link declares what the link names as well (commands are functions of their declared and
+  // discovered inputs; a link node's value is the link, not what it points to).  Description edits and the shrinker can
+  // drop that input: put it back.  A symlink command waits for the producer of what it names.
+  for (auto& c : cmds) {
+    if (c.tool != "shell") continue;
+    std::vector<std::string> add;
+    for (auto& i : c.inputs) {
+      if (!isLinkNode(i)) continue;
+      const Cmd* s = producer(i);
+      if (s && s->tool == "symlink" && !s->contents.empty() && std::find(c.inputs.begin(), c.inputs.end(), s->contents) == c.inputs.end()) add.push_back(s->contents);
+    }
+    for (auto& a : add) c.inputs.push_back(a);
+  }
 }
 
 const Cmd* Desc::producer(const std::string& path) const {
@@ -261,7 +274,7 @@ ToolResult toolCompute(const Cmd& c, const ReadFn& read) {
   std::vector<std::string> queue;
   std::set<std::string> declared;
   for (auto& i : c.inputs) {
-    if (isVirtualNode(i) || isDirNode(i)) continue;
+    if (isVirtualNode(i) || isDirNode(i) || isMkdirNode(i)) continue;
     declared.insert(i);
     std::string content;
     if (!read(i, &content)) {
